@@ -230,8 +230,13 @@ func factsOf(c FCase, fired []string) facts {
 	fs := f.fs
 	f.split = fs[shProcSplit]
 	f.nackRisk = c.DLQWindow > 0 && (fs[shProcError] || fs["dst-"+shAckNack] || fs[shProcErrorNil])
+	// mayFail: shapes after which an error stop is an acceptable ("stops that pipeline with an error")
+	// or even documented outcome: undocumented shapes (long output, ErrorRecord without error, empty
+	// ack responses, duplicate positions), nacks while the DLQ window can overflow, and a split run
+	// of which a later processor/destination resolves only a part (documented coded refusals
+	// pipeline.empty_source_position / pipeline.split_run_straddles_fanout).
 	f.mayFail = fs[shProcLong] || fs[shProcErrorNil] || fs[shSrcDupPos] || fs["dst-"+shAckEmpty] || fs["dlq-"+shAckEmpty] ||
-		fs[shCondShort] || fs[shSplitEmptyPos] || fs[shSplitDupPos] || f.nackRisk || (f.split && (fs[shProcShort] || fs[shProcNil] || fs[shProcNilForever]))
+		fs[shCondShort] || fs[shSplitEmptyPos] || fs[shSplitDupPos] || f.nackRisk || (f.split && (fs[shProcShort] || fs[shProcNil] || fs[shProcNilForever] || fs[shProcError] || fs["dst-"+shAckNack]))
 	return f
 }
 
